@@ -230,9 +230,9 @@ class Session:
         for li, l in enumerate(locs):
             for v in versions:
                 imgs = tuple((pol, sc, n + (v if i == 0 else 0), p) for i, (pol, sc, n, p) in enumerate(base))
-                self.built[(l, v)] = product.build_product(level=level, images=imgs, seed=seed * 16 + li * 4 + v + 1,
+                self.built[f"{l}{v}"] = product.build_product(level=level, images=imgs, seed=seed * 16 + li * 4 + v + 1,
                                                            ctx={"creation_datetime": f"20200301120{li}{v}000"}, drift=bool(seed % 2))
-        b0 = self.built[(locs[0], versions[0])]
+        b0 = self.built[f"{locs[0]}{versions[0]}"]
         self.img = {"a": 0, "b": 1}
         self.names = {m: b0.images[i]["name"] for m, i in self.img.items()}
         self.groups = {m: b0.images[i]["group"] for m, i in self.img.items()}
@@ -247,7 +247,7 @@ class Session:
         self.storage_options = storage_options
         for l in locs:
             os.makedirs(self.twin[l])
-            self.deliver(l, versions[0])
+            self.deliver(l, f"{l}{versions[0]}")
         self.refs = self._references()
         # the application's logging configuration must not matter
         import logging
@@ -264,7 +264,7 @@ class Session:
     # ------------------------------------------------------------------ environment
     def deliver(self, l, v):
         replace = self.rng.random() < 0.5
-        for name, data in self.built[(l, v)].files.items():
+        for name, data in self.built[v].files.items():
             self.place[l].put(name, data, replace=replace)
             with open(os.path.join(self.twin[l], name), "wb") as f:
                 f.write(data)
@@ -273,11 +273,11 @@ class Session:
     def _references(self):
         dirs, keys = [], []
         base = checklib.fresh_dir("ref_")
-        for (l, v), b in self.built.items():
-            d = os.path.join(base, f"{l}{v}", "product")
+        for v, b in self.built.items():
+            d = os.path.join(base, v, "product")
             b.write(d)
             dirs.append(d)
-            keys.append((l, v))
+            keys.append(v)
         out = os.path.join(base, "refs.json")
         env = checklib.worker_env(os.path.join(base, "xdg"))
         p = subprocess.run([sys.executable, "-W", "ignore", "-c", REF_CHILD, out] + dirs, env=env, stdout=subprocess.PIPE, stderr=subprocess.STDOUT, text=True)
@@ -329,7 +329,7 @@ class Session:
         k = (l, self.cur[l], m)
         if k not in self.docs:
             src = os.path.join(checklib.fresh_dir("doc_"), "product")
-            self.built[(l, self.cur[l])].write(src)
+            self.built[self.cur[l]].write(src)
             target = checklib.fresh_dir("doct_")
             rc = cacherun.run_cli(os.path.join(src, self.names[m]), 7, target)
             p = os.path.join(target, self.names[m] + ".index")
@@ -391,7 +391,7 @@ class Session:
                     if last["judged"] and want == "tree":
                         find("unloadable", f"the returned tree cannot be loaded / projected: {type(e).__name__}: {str(e)[:200]}")
                 if fp is not None and (want == "tree" or tolerated) and last["judged"]:
-                    ref = patch_rpc(self.refs[(l, last["ver"])], rpc)
+                    ref = patch_rpc(self.refs[last["ver"]], rpc)
                     for cat, msgs in categorise(ref, fp).items():
                         for msg in msgs:
                             find(cat, msg)
@@ -421,7 +421,7 @@ class Session:
             t, m = last["slot"], last["img"]
             if t in self.trees:
                 tree, l, ver, cver = self.trees[t]
-                im = self.built[(l, ver)].images[self.img[m]]
+                im = self.built[ver].images[self.img[m]]
                 n, p = im["n"], im["p"]
                 key, rows, cols = self.selection(last["sel"], n, p)
                 try:
@@ -526,10 +526,24 @@ class Session:
         elif op == "redeliver":
             self.deliver(last["loc"], last["ver"])
             self.damaged[last["loc"]] = {}
+        elif op == "copyto":
+            src, dst = last["loc"], last["dst"]
+            for n in list(self.place[dst].listing()):
+                self.place[dst].remove(n)
+            for n in os.listdir(self.twin[dst]):
+                os.remove(os.path.join(self.twin[dst], n))
+            for n in self.place[src].listing():
+                data = self.place[src].get(n)
+                self.place[dst].put(n, data)
+                if not n.endswith(".index"):
+                    with open(os.path.join(self.twin[dst], n), "wb") as fh:
+                        fh.write(data)
+            self.cur[dst] = self.cur[src]
+            self.damaged[dst] = dict(self.damaged.get(src, {}))
         elif op == "damage":
             l, f, how = last["loc"], last["file"], last["how"]
             name = self.filekey[f]
-            data = self.built[(l, self.cur[l])].files[name]
+            data = self.built[self.cur[l]].files[name]
             if how == "missing":
                 self.place[l].remove(name)
                 if os.path.exists(os.path.join(self.twin[l], name)):
@@ -622,7 +636,7 @@ class Session:
     def cut_point(self, f, data, l):
         n = len(data)
         if f in self.names:  # image: descriptor, inside the first record, a record boundary, inside the last record, last byte
-            b = self.built[(l, self.cur[l])].images[self.img[f]]
+            b = self.built[self.cur[l]].images[self.img[f]]
             rec = b["prefix"] + b["p"] * b["bps"]
             cands = [0, 1, 719, 720, 721, 720 + rec - 1, 720 + rec, 720 + rec + 1, 720 + rec * (b["n"] - 1), n - rec + 1, n - 2, n - 1]
             return self.rng.choice([c for c in cands if 0 <= c < n])
